@@ -20,7 +20,10 @@ func c03Run(c hCase) Verdict {
 	}
 	m := newMonitor(c)
 	v := Verdict{}
+	all := run
 	if k := closedByShutdown(c, run); k >= 0 {
+		// the monitor judges the history up to there; the session invariants
+		// (one Logout per session, nothing after it) the whole trace
 		run.steps = run.steps[:k]
 		v.Classes = append(v.Classes, "connection_ended_by_the_shutdown")
 	}
@@ -39,7 +42,7 @@ func c03Run(c hCase) Verdict {
 	if e := traceInvariants(c, run); e != "" {
 		return failf("trace", "%s\nhistory: %v", e, cmdNames(c.Cmds))
 	}
-	if bad := sessionInvariants(append(flatEvents(run), run.tail...), run.rig.Leftover); bad != nil {
+	if bad := sessionInvariants(append(flatEvents(all), all.tail...), run.rig.Leftover); bad != nil {
 		return *bad
 	}
 	if p := run.rig.Log.Panicked(); p != "" {
